@@ -114,10 +114,22 @@ func genScript(r *lib.Rng, tier string) *Case {
 			c.Ops = append(c.Ops, SOp{Op: "reuse", Parent: &p, New: next, Inf: 100 + next})
 			units = append(units, next)
 			next++
-		case x == 5 && len(units) < 9 && r.Chance(1, 3):
+		case x == 5 && len(units) < 9 && r.Chance(2, 3):
 			l := r.Range(0, 4)
-			c.Ops = append(c.Ops, SOp{Op: "raw", New: next, Inf: 100 + next, Off: r.Intn(3),
-				Hs: pickSome(r, nH, l, l), Spare: r.Intn(5)})
+			op := SOp{Op: "raw", New: next, Inf: 100 + next, Off: r.Intn(3)}
+			if r.Chance(1, 2) {
+				// user code (a node body, a tool) calls the public InitCallbacks on the context it was handed,
+				// i.e. on one that already carries handlers and a run info: both are overwritten - with an
+				// empty list and no global handlers the result carries nothing at all (a component run
+				// under it is reported to nobody)
+				p := units[r.Intn(len(units))]
+				op.Over = &p
+				if r.Chance(2, 3) {
+					l = 0
+				}
+			}
+			op.Hs, op.Spare = pickSome(r, nH, l, l), r.Intn(5)
+			c.Ops = append(c.Ops, op)
 			rawLen[next] = l
 			rawUnits = append(rawUnits, next)
 			units = append(units, next)
@@ -138,7 +150,12 @@ func genScript(r *lib.Rng, tier string) *Case {
 			if hi > 0 && r.Chance(1, 3) {
 				lo = r.Range(0, hi)
 			}
-			c.Ops = append(c.Ops, SOp{Op: "alias", Parent: &src, New: next, Inf: 100 + next, Lo: lo, Hi: hi})
+			op := SOp{Op: "alias", Parent: &src, New: next, Inf: 100 + next, Lo: lo, Hi: hi}
+			if r.Chance(1, 3) {
+				p := units[r.Intn(len(units))]
+				op.Over = &p
+			}
+			c.Ops = append(c.Ops, op)
 			rawLen[next] = hi - lo
 			rawUnits = append(rawUnits, next)
 			units = append(units, next)
@@ -227,6 +244,19 @@ func runScript(c *Case) lib.Result {
 	}
 	info := func(i int) *callbacks.RunInfo { return &callbacks.RunInfo{Name: fmt.Sprintf("u%d", i)} }
 
+	// the context a raw / alias unit is initialised on: a fresh one, or the context of an earlier unit (InitCallbacks
+	// overwrites whatever run info and handlers that one carries: the model's ORaw / OAlias do not depend on it)
+	nOver, nDetached := 0, 0
+	baseCtx := func(op SOp) context.Context {
+		if op.Over == nil {
+			return context.Background()
+		}
+		nOver++
+		if hasMgr[*op.Over] && len(op.Hs)+len(c.Globals) == 0 && op.Op == "raw" {
+			nDetached++
+		}
+		return ctxs[*op.Over]
+	}
 	optPool := map[string]callerSlice{}
 	class, detail := watchdog(20*time.Second, func() {
 		installGlobals(c, hs)
@@ -250,7 +280,7 @@ func runScript(c *Case) lib.Result {
 				back := make([]callbacks.Handler, op.Off+len(op.Hs)+op.Spare)
 				copy(back[op.Off:], toH(op.Hs))
 				sl := back[op.Off : op.Off+len(op.Hs) : op.Off+len(op.Hs)+op.Spare]
-				ctxs[op.New] = callbacks.InitCallbacks(context.Background(), info(op.Inf), sl...)
+				ctxs[op.New] = callbacks.InitCallbacks(baseCtx(op), info(op.Inf), sl...)
 				raws[op.New] = rawSlice{back, op.Off, len(op.Hs)}
 				spec[op.New] = append([]int(nil), op.Hs...)
 				hasMgr[op.New] = len(op.Hs)+len(c.Globals) > 0
@@ -262,7 +292,7 @@ func runScript(c *Case) lib.Result {
 					panic("harness: bad alias op")
 				}
 				sl := rs.back[rs.off+op.Lo : rs.off+op.Hi] // capacity reaches to the end of the caller's array
-				ctxs[op.New] = callbacks.InitCallbacks(context.Background(), info(op.Inf), sl...)
+				ctxs[op.New] = callbacks.InitCallbacks(baseCtx(op), info(op.Inf), sl...)
 				raws[op.New] = rawSlice{rs.back, rs.off + op.Lo, op.Hi - op.Lo}
 				spec[op.New] = append([]int(nil), spec[*op.Parent][op.Lo:op.Hi]...)
 				hasMgr[op.New] = len(spec[op.New])+len(c.Globals) > 0
@@ -525,7 +555,8 @@ func runScript(c *Case) lib.Result {
 	}
 	res.Nontrivial = (maxSib >= 2 && spare) || nAlias > 0
 	res.Tags = []string{"kind:script", fmt.Sprintf("script-appends:%d", nAppend), fmt.Sprintf("script-globals:%d", len(c.Globals)),
-		fmt.Sprintf("script-siblings:%d", maxSib), fmt.Sprintf("script-spare:%v", spare), fmt.Sprintf("script-alias:%d", nAlias), "class:ok"}
+		fmt.Sprintf("script-siblings:%d", maxSib), fmt.Sprintf("script-spare:%v", spare), fmt.Sprintf("script-alias:%d", nAlias),
+		fmt.Sprintf("script-init-over:%d", nOver), fmt.Sprintf("script-detached:%v", nDetached > 0), "class:ok"}
 	return res
 }
 
